@@ -22,9 +22,12 @@ echo "demo without patch rc=$A (want 0); demo with patch rc=$B (want !=0); suite
 D=/verif/seeded/$P-$N; mkdir -p $D
 cp $OUT/patch.diff $D/patch.diff; cp $OUT/demo.rs $D/demo.rs; cp $OUT/notes.txt $D/notes.txt
 cd /verif
-git -C /repo apply $D/patch.diff || { echo "patch does not apply to /repo"; exit 2; }
+unset CARGO_TARGET_DIR
+DIRTY=0; if [ -n "$(git -C /repo status --porcelain --untracked-files=no)" ]; then DIRTY=1; git -C /repo stash -q; fi
+git -C /repo apply $D/patch.diff || { echo "patch does not apply to /repo"; [ $DIRTY -eq 1 ] && git -C /repo stash pop -q; exit 2; }
 ./check $P > $D/check.out 2>&1; R=$?
 git -C /repo checkout -- .
+[ $DIRTY -eq 1 ] && git -C /repo stash pop -q
 echo "check rc=$R"; grep -E "VIOLATION|KNOWN|OK property" $D/check.out | head -5
 echo "$R" > $D/check.rc
 python3 - "$P" "$N" "$CRATE" "$R" "$*" <<'PY'
